@@ -12,6 +12,7 @@ mod keys;
 mod lj;
 mod stakedrive;
 mod swapdrive;
+mod tipdrive;
 mod universe;
 mod vm;
 mod wallet;
@@ -201,6 +202,14 @@ fn cmd_env(a: &Args) {
     println!("{}", json!({"records": n}));
 }
 
+fn cmd_tips(a: &Args) {
+    let mut out = Out::new(&a.s("out", "tips.ndjson"));
+    let net = drive::net_of(&a.s("net", "custom02"));
+    tipdrive::tip_history(&mut out, &a.s("tag", "tips"), a.u64("seed", 1), net);
+    let n = out.finish();
+    println!("{}", json!({"records": n}));
+}
+
 fn cmd_swap(a: &Args) {
     let mut out = Out::new(&a.s("out", "swap.ndjson"));
     let net = drive::net_of(&a.s("net", "custom02"));
@@ -236,6 +245,7 @@ fn main() {
         Some("codec") => cmd_codec(&a),
         Some("ledger") => cmd_ledger(&a),
         Some("swap") => cmd_swap(&a),
+        Some("tips") => cmd_tips(&a),
         Some("env") => cmd_env(&a),
         Some("universe") => cmd_universe(&a),
         Some("boundary") => cmd_boundary(&a),
